@@ -11,7 +11,7 @@ PROPS = {}
 NOT_APPLICABLE = {}
 HOOK_COMMITS = ['0378f89', '5b36563', '2d739c2']
 # properties whose check exists in the tree but is not yet claimed (still being built / reviewed)
-NOT_READY = {"C07", "C11", "C18"}
+NOT_READY = {"C11"}
 
 PROPS["C14"] = dict(
     level="proof",
